@@ -43,11 +43,11 @@ def run_workflow(circuit: Any, workflow: Any, data: dict | None = None) -> Any:
         task.data.update(data)
     return run_task(task)
 
-QUICK_BUDGET = 95.0
+QUICK_BUDGET = 75.0
 # exact passes: besides the HS cost (1e-9) every matrix entry must agree up
 # to one global phase.  Measured on the unchanged tree: < 1e-12 everywhere.
 EXACT_ENTRY = 1e-7
-THOROUGH_BUDGET = 36 * 60.0
+THOROUGH_BUDGET = 34 * 60.0
 
 
 class _CaseTimeout(BaseException):
@@ -122,6 +122,9 @@ def domain_of(row: cat.Row, tier: str, seed: int, opts: dict) -> list[dict]:
 _FRAME = re.compile(r'File "[^"]*bqskit/passes/([^"]+)\.py", line \d+, in (\w+)')
 
 
+_FRAME_ANY = re.compile(r'File "[^"]*bqskit/([^"]+)\.py", line \d+, in (\w+)')
+
+
 def _error_signature(tb: str) -> tuple[str, str, str]:
     """(exception type, causal slug, last line) from a worker traceback."""
     lines = [ln for ln in tb.strip().splitlines() if ln.strip()]
@@ -140,11 +143,16 @@ def _error_signature(tb: str) -> tuple[str, str, str]:
     words = re.sub(r'[^A-Za-z ]+', ' ', msg).lower().split()
     stem = '-'.join(words[:7]) or 'no-message'
     frames = _FRAME.findall(tb)
+    if not frames:      # e.g. raised inside a task mapped onto the runtime
+        frames = [(m, f) for m, f in _FRAME_ANY.findall(tb)
+                  if not m.startswith(('runtime/', 'compiler/'))]
     where = ''
     if frames:
         mod, fn = frames[-1]
         where = '@' + mod.split('/')[-1] + '.' + fn
-    return etype, f'{etype}:{stem}{where}', last
+    # causal and stable: the pass-level frame that raised when there is one
+    # (messages of one defect vary with the input), else the message stem
+    return etype, (f'{etype}{where}' if where else f'{etype}:{stem}'), last
 
 
 def _execute(row: cat.Row, opts: dict, spec: dict, seed: int) -> dict:
@@ -287,12 +295,14 @@ def _chunk(job: tuple) -> dict:
     rowname, tier, seed, opts, lo, hi, deadline = job
     _DEADLINE = deadline
     row = cat.ROWS[rowname]
-    dom = domain_of(row, tier, seed, opts)
     agg: dict[str, Any] = {
         'row': rowname, 'cases': 0, 'acts': 0, 'outcomes': {}, 'viol': [],
         'max_cost': 0.0, 'max_ent': 0.0, 'secs': 0.0, 'sample': None,
         'pre_errors': {}, 'notok': {},
     }
+    if time.time() > deadline:
+        return agg
+    dom = domain_of(row, tier, seed, opts)
     for i in range(lo, hi):
         if time.time() > deadline:      # budget exhausted: return the prefix
             break
@@ -351,12 +361,14 @@ def run(ctx: Ctx) -> None:
     plans = _plan(ctx.tier, ctx.seed, deadline, only)
     _DOM_CACHE.clear()
     total = {p[0][0]: sum(j[5] - j[4] for j in p) for p in plans if p}
-    # round-robin over rows so that a time cap trims the tail of every row
-    jobs: list[tuple] = []
-    for k in range(max((len(p) for p in plans), default=0)):
-        for p in plans:
-            if k < len(p):
-                jobs.append(p[k])
+    # interleave the rows proportionally, so that a time cap trims the same
+    # fraction off the tail of every row's canonical order
+    keyed = []
+    for ri, p in enumerate(plans):
+        for k, j in enumerate(p):
+            keyed.append((k / len(p), ri, k, j))
+    keyed.sort(key=lambda x: x[:3])
+    jobs: list[tuple] = [x[3] for x in keyed]
     done: dict[str, int] = {}
     nontrivial = 0
     viols: list[tuple] = []
